@@ -121,7 +121,7 @@ def c02(tier, seed):
 @plan("C03")
 def c03(tier, seed):
     return dict(
-        jobs=medium_jobs("C03", tier, seed) + w3_jobs(seed) + sched_jobs(tier, seed, gen=dict(nmax=9, mc_max=4), selections=True)
+        jobs=[dict(kind="scale", pid="C03", n_cases=(4 if tier == "quick" else 10), deep=True, nmin=150, nmax=(350 if tier == "quick" else 700), **_seeds(seed + 311, k)) for k in range(1 if tier == "quick" else 4)] + medium_jobs("C03", tier, seed) + w3_jobs(seed) + sched_jobs(tier, seed, gen=dict(nmax=9, mc_max=4), selections=True)
         + diff_jobs("C03", tier, seed, dict(flags=0.3, nest=0.3, nest_flag=0.3, share_fns=0.5), 2, nj_scale=0.5,
                     only=["executed_functions_differ_from_plain_python", "flagged_call_ran_although_flag_falsy",
                           "flagged_call_skipped_although_flag_truthy"] + ["call_site_entered_%d_times_expected_%d" % (a, b) for a in range(6) for b in range(2)])
@@ -163,7 +163,7 @@ def c03(tier, seed):
 @plan("C04")
 def c04(tier, seed):
     return dict(
-        jobs=medium_jobs("C04", tier, seed) + w3_jobs(seed) + sched_jobs(tier, seed, gen=dict(nmin=4, nmax=14, mc_max=8, max_deps=1, seq_rate=0.05), dfs_gen=dict(nmin=3))
+        jobs=[dict(kind="scale", pid="C04", n_cases=(4 if tier == "quick" else 10), deep=True, nmin=150, nmax=(350 if tier == "quick" else 700), **_seeds(seed + 312, k)) for k in range(1 if tier == "quick" else 4)] + medium_jobs("C04", tier, seed) + w3_jobs(seed) + sched_jobs(tier, seed, gen=dict(nmin=4, nmax=14, mc_max=8, max_deps=1, seq_rate=0.05), dfs_gen=dict(nmin=3))
         # resources decide the thread in EVERY execution mode: executors restricted by target / exclude / root nodes, setup nodes
         # (any resource) run by setup() or by the first call
         + sched_jobs(tier, seed + 21, gen=dict(nmin=3, nmax=9, mc_max=4, max_deps=2, setup_rate=0.3), selections=True, dfs=False, stress=False, scale=0.4)
@@ -181,7 +181,7 @@ def c04(tier, seed):
 @plan("C05")
 def c05(tier, seed):
     return dict(
-        jobs=medium_jobs("C05", tier, seed) + w3_jobs(seed) + sched_jobs(tier, seed, gen=dict(nmax=8, mc_max=4, seq_rate=0.4), selections=True)
+        jobs=[dict(kind="scale", pid="C05", n_cases=(4 if tier == "quick" else 10), deep=True, nmin=150, nmax=(350 if tier == "quick" else 700), **_seeds(seed + 313, k)) for k in range(1 if tier == "quick" else 4)] + medium_jobs("C05", tier, seed) + w3_jobs(seed) + sched_jobs(tier, seed, gen=dict(nmax=8, mc_max=4, seq_rate=0.4), selections=True)
         + diff_jobs("C05", tier, seed, dict(flags=0.2, nest=0.3, nest_flag=0.2, share_fns=0.3, seq=0.4), 2, nj_scale=0.25, only=[])
         # nodes whose function is a DAG object, made sequential by a configuration reload: they overlap nothing either
         + [dict(kind="env", pid="C05", scenarios=["reentrant"], how="dag_object_as_node_function", n_cases=(60 if tier == "quick" else 500),
@@ -249,7 +249,7 @@ def c09(tier, seed):
     jobs += [dict(kind="env", pid="C09", scenarios=["loops"], n_cases=(30 if tier == "quick" else 300),
                   only=["execution_handed_work_to_the_event_loops_default_executor", "await_in_*", "await_after_a_cancelled_await_in_the_same_loop_*"],
                   op_watchdog_s=30, **_seeds(seed + 89, k)) for k in range(2 if tier == "quick" else 6)]
-    jobs += [dict(kind="scale", n_cases=(2 if tier == "quick" else 8), nmin=150, nmax=(400 if tier == "quick" else 900), **_seeds(seed + 85, k))
+    jobs += [dict(kind="scale", n_cases=(4 if tier == "quick" else 10), deep=True, nmin=150, nmax=(400 if tier == "quick" else 900), **_seeds(seed + 85, k))
              for k in range(2 if tier == "quick" else 8)]
     # "never returns normally while a selected active node has not run" also for executors that are run again after a failure
     jobs += [dict(kind="hist15", pid="C09", n_histories=(40 if tier == "quick" else 400), only=["executor_rerun_used_partially_consumed_graph"],
@@ -437,6 +437,8 @@ def c12(tier, seed):
         for p in range(16):
             jobs.append(dict(kind="sel", exhaustive_n=[4], part=p, nparts=16, random_shapes=120, nmin=5, nmax=9, triples_per_shape=60, **_seeds(seed, 1 + p)))
         ex = "all DAGs on 2..4 nodes x every (R, X, T)"
+    # selections deep inside chains of 500 .. 1500 nodes (longer than the recursion limit): exactly the closure runs
+    jobs += [dict(kind="scale", pid="C12", n_cases=(4 if tier == "quick" else 10), deep=True, nmin=150, nmax=(350 if tier == "quick" else 700), **_seeds(seed + 314, k)) for k in range(1 if tier == "quick" else 4)]
     # selections that name many nodes (explicit lists of more than 16 ids, a tag shared by more than 16 nodes) on wide DAGs
     jobs += [dict(kind="sel", exhaustive_n=[], random_shapes=0, wide_shapes=(6 if tier == "quick" else 40), triples_per_shape=25, **_seeds(seed + 73, k))
              for k in range(2 if tier == "quick" else 6)]
